@@ -209,6 +209,47 @@ def query_eq(shape: str, template: str, i: int, j: int, a: int, b: int, c: int, 
     return True
 
 
+def query_reuse(shape: str, template: str, other: str, i: int, a: int, b: int, c: int, slash: bool) -> bool:
+    """One Processor and one YAMLPath object used for several queries in a row answer each like fresh ones:
+    query, another path, exists(), the first query again (as object and as text, with a forced separator)."""
+    from yamlpath.enums import PathSeparators
+    pieces_fn, segs_fn = TEMPLATES[template][0], TEMPLATES[template][1]
+    opieces_fn, osegs_fn = TEMPLATES[other][0], TEMPLATES[other][1]
+    doc = docs.build(shape, a, b, c)
+    foc = docs.focus(shape)
+    fsegs = [("key", part) for part in foc.split(".") if part]
+    path = mkpath(foc, pieces_fn(i, 0), slash)
+    opath = mkpath(foc, opieces_fn(i, 0), not slash)
+    note(document=docs.describe(shape), leaves=[a, b, c], first=path, second=opath)
+    try:
+        want = ref_eval(doc, fsegs + segs_fn(i, 0))
+        owant = ref_eval(doc, fsegs + osegs_fn(i, 0))
+    except Undefined:
+        return True
+    proc = Processor(LOG, doc)
+    ypath = YAMLPath(path)
+
+    def run(x, **kw):
+        try:
+            return _flatten([nc for nc in proc.get_nodes(x, mustexist=True, **kw)])
+        except YAMLPathException:
+            return []
+    r1 = run(ypath)
+    r2 = run(opath)
+    e1 = proc.exists(ypath)
+    r3 = run(ypath)
+    r4 = run(ypath, pathsep=PathSeparators.FSLASH if not slash else PathSeparators.DOT)
+    r5 = run(path)
+    ok = _same(r1, want) and _same(r2, owant) and _same(r3, want) and _same(r4, want) and _same(r5, want)
+    if want or not any(sg[0] == "slice" for sg in fsegs + segs_fn(i, 0)):
+        ok = ok and (e1 == (len(want) > 0))
+    return ok
+
+
+REUSE_Q = [("ML3", "idx", "el_gt"), ("AOHX", "at_gt", "p"), ("AOH3", "p", "idx_p"), ("MM", "deep", "p"),
+           ("HOH", "star_at", "star"), ("M3", "key_sw", "hslice"), ("LL", "star_idx", "idx")]
+
+
 # (shape, template) pairs: quick set, the rest is the thorough product over the applicability table
 LISTS = ["L3", "L2", "L1", "L0", "ML3", "ML4", "ML0", "LNULL"]
 LIST_T = ["idx", "barekey", "slice", "el_gt", "el_ngt", "el_le", "el_ge", "el_lt", "el_eq", "el_neq", "el_sw",
@@ -287,4 +328,13 @@ def pairs(tier):
 
 
 def shards(tier, seed):
-    return [x for s, t in pairs(tier) for x in _mk(s, t, tier)]
+    out = [x for s, t in pairs(tier) for x in _mk(s, t, tier)]
+    for s, t, o in (REUSE_Q if tier == "thorough" else REUSE_Q[:4]):
+        uses_i = TEMPLATES[t][2] or TEMPLATES[o][2]
+        out.append(shard(PID, "reuse/%s/%s+%s" % (s, t, o), "harness.c01",
+                         "query_reuse(%r, %r, %r, %s, a, b, c, slash)" % (s, t, o, "i" if uses_i else "0"),
+                         ([("i", "int")] if uses_i else []) + [("a", "int"), ("b", "int"), ("c", "int"), ("slash", "bool")],
+                         (["-4 <= i <= 4"] if uses_i else []) + ["-9 <= a <= 9 and -9 <= b <= 9 and -9 <= c <= 9"],
+                         family="reuse", budget=900,
+                         desc="one Processor + one YAMLPath object reused for 5 queries: %s then %s" % (t, o)))
+    return out
